@@ -169,6 +169,30 @@ def check_tempfile(rep):
                     rep.fail('write_to_tempfile-after-directory-removed',
                              {'depth': depth, 'got': p}, {'tempfile': depth})
                     return
+        # bytes-like content of other kinds, and a process whose stdin is not UTF-8
+        import sys
+
+        class FakeStdin:
+            encoding = 'latin-1'
+        payload = b'caf\xe9 \xff\x00 end'
+        for kind, content in (('bytearray', bytearray(payload)), ('memoryview', memoryview(payload)),
+                              ('bytes-latin1-stdin', payload)):
+            rep.count('evaluations')
+            rep.nontrivial('content/' + kind)
+            old_stdin = sys.stdin
+            if kind.endswith('stdin'):
+                sys.stdin = FakeStdin()
+            try:
+                p = fileutils.write_to_tempfile(content, path=base)
+                ok = open(p, 'rb').read() == payload
+            except Exception as e:
+                ok, p = False, 'raises ' + type(e).__name__
+            finally:
+                sys.stdin = old_stdin
+            if not ok:
+                rep.fail('write_to_tempfile-content:%s' % kind, {'content_kind': kind, 'got': p},
+                         {'tempfile': 0})
+                return
         # without a directory: default location, still a new file with the content
         p = fileutils.write_to_tempfile(b'xyz')
         rep.count('evaluations')
@@ -234,6 +258,40 @@ def check_errno(rep):
                 rep.fail('delete_if_exists-errno', {'errno': errno.errorcode[code], 'got': repr(got),
                                                     'calls': calls},
                          {'errno': [code, 'file', 'remove']})
+        # the filter is on errno, whatever OSError subclass carries it
+        class RemoteFSError(OSError):
+            pass
+        for maker in (lambda c: RemoteFSError(c, 'remote'), ):
+            for code, want_swallow in ((errno.ENOENT, True), (errno.EACCES, False), (errno.EEXIST, False)):
+                exc = maker(code)
+                late = OSError('late errno')
+                late.errno = code
+
+                for e in (exc, late):
+                    def rm(p, _e=e):
+                        raise _e
+                    rep.count('evaluations')
+                    rep.nontrivial('rmsub/%d/%s' % (code, type(e).__name__))
+                    try:
+                        fileutils.delete_if_exists(afile, remove=rm)
+                        got = None
+                    except BaseException as g:
+                        got = g
+                    if (want_swallow and got is not None) or (not want_swallow and got is not e):
+                        rep.fail('delete_if_exists-errno-on-subclass',
+                                 {'errno': errno.errorcode[code], 'exception_class': type(e).__name__,
+                                  'got': repr(got)}, {'errno': [code, 'file', 'remove-subclass']})
+            e = RemoteFSError(errno.EEXIST, 'exists')
+            rep.count('evaluations')
+            with mock.patch('os.makedirs', side_effect=e):
+                try:
+                    fileutils.ensure_tree(adir)
+                    got = None
+                except BaseException as g:
+                    got = g
+            if got is not None:
+                rep.fail('ensure_tree-EEXIST-subclass-on-dir', {'got': repr(got)},
+                         {'errno': [errno.EEXIST, 'dir', 'makedirs-subclass']})
         # the requested mode is applied to what is created
         old_umask = os.umask(0o022)
         try:
